@@ -28,6 +28,7 @@ type Clause struct {
 type LoopSpec struct {
 	Invariants []*Clause
 	Decreases  *Clause
+	Assigns    []*Clause // loop frame: what the body may write besides memory allocated since the loop was entered
 }
 
 type Contract struct {
@@ -351,6 +352,8 @@ func (S *Specs) loadFile(path, pkg string, goFile bool) error {
 				ls.Invariants = append(ls.Invariants, cl)
 			case "decreases":
 				ls.Decreases = cl
+			case "assigns":
+				ls.Assigns = append(ls.Assigns, cl)
 			default:
 				return fmt.Errorf("%s: unknown loop clause %q", src, k2)
 			}
